@@ -222,3 +222,9 @@ take_harness!(c11_take_until_secure_returns_at_least_20_of_21_estimate_max, {
     kani::cover!(l == 20);
     kani::cover!(l == 21);
 });
+
+/// appends a node to the accumulator without going through add() (for harnesses of callers that
+/// need a pre-built, already ordered accumulator and a small unwinding bound)
+pub(crate) fn push_raw(c: &mut ClosestNodes, n: Node) {
+    c.nodes.push(n);
+}
